@@ -583,6 +583,12 @@ Proof.
   destruct (Qltb x (smin s)) eqn:E1; repeat qcase; qb2p; lra.
 Qed.
 
+Lemma indexed_nth_error {A} (l : list A) i s : nth_error l i = Some s -> nth_error (indexed l) i = Some (i, s).
+Proof.
+  intros H. pose proof (nth_error_some_lt _ _ _ H) as Hlt. unfold indexed.
+  rewrite (indexed_nth s l 0 i Hlt). cbn. rewrite (nth_error_nth _ _ s H). reflexivity.
+Qed.
+
 Section Post.
   Variable solver : nat -> list nvar -> list con -> list bool -> list Q * list bool.
   (* property C01 as the contract of the solver parameter: positions for every variable; every constraint that the
@@ -735,6 +741,93 @@ Section Post.
     exists k, c. repeat split; try tauto.
     intros Hflag. destruct (Ha k c Hck Hflag) as [A _]. rewrite E1, E2 in A. lra.
   Qed.
+
+  (* ---- immovable members (seeded change C10-6, DESIGN 9.13).  A segment built by the fixed-segment constructor
+     (first / last segment, segment through a checkpoint, end segment of a fixed route: fixed, not final, no checkpoints
+     recorded, no bend) is an IMMOVABLE MEMBER of its region: in a satisfied region of the nudging stage it keeps its
+     position exactly, and every movable segment that overlapsWith it and is not exempted ends at least the final
+     (possibly reduced) sepDist away from it, on the side the processing order put it: to SAT_TOL + 1e-10 for the
+     solver position, and to SAT_TOL + 1e-10 + d for the written position when the solver position respects the
+     segment's limits to d (nudge_channel_post: d = SAT_TOL + 1e-10 for finite limits whose channel constraints the
+     solver did not flag). *)
+  Definition plain_fixed (s : seg) : Prop := sfixed s = true /\ sfinal s = false /\ scp s = false /\ szigzag s = false.
+
+  Lemma written_nth R g xs i : (i < length (rsegs R))%nat ->
+    nth i (written R g xs) 0 = new_pos (seg_of R i) (nth (seg_var g i) xs 0).
+  Proof.
+    intros Hi. unfold written.
+    assert (Hs : nth_error (rsegs R) i = Some (seg_of R i)) by (unfold seg_of; apply nth_error_nth'; exact Hi).
+    apply indexed_nth_error in Hs.
+    apply nth_error_nth. rewrite nth_error_map, Hs. reflexivity.
+  Qed.
+
+  Lemma plain_fixed_var fuel R o i :
+    nudge_region solver fuel R = NOk o -> o_sat o = true -> (i < length (rsegs R))%nat -> plain_fixed (seg_of R i) ->
+    Qabs' (nth (seg_var (gen R) i) (o_xs o) 0 - spos (seg_of R i)) <= SAT_TOL /\ nth i (o_pos o) 0 = spos (seg_of R i).
+  Proof.
+    intros H Hsat Hi [F1 [F2 [F3 F4]]].
+    destruct (nudge_satisfied_post _ _ _ H Hsat) as [_ [_ [Hc [_ Hw]]]].
+    pose proof (proj1 (proj2 (nudge_gen_wf R)) i Hi) as Hv.
+    rewrite (create_var_plain_fixed _ _ _ F1 F2 F3 F4) in Hv. split.
+    - exact (Hc _ _ Hv ltac:(cbn; discriminate)).
+    - rewrite Hw, written_nth by exact Hi. apply new_pos_fixed. exact F1.
+  Qed.
+
+  Theorem nudge_immovable_member_post fuel R o i j :
+    nudge_region solver fuel R = NOk o -> o_sat o = true -> runify R = false ->
+    (j < i)%nat -> (i < length (rsegs R))%nat ->
+    r_ov (rel_of R i j) = true -> r_sa (rel_of R i j) = false -> r_ca (rel_of R i j) = false ->
+    (rnsp R = true \/ r_sh (rel_of R i j) = false) -> 0 < rbase R ->
+    let g := gen R in let si := seg_of R i in let sj := seg_of R j in
+    let xi := nth (seg_var g i) (o_xs o) 0 in let xj := nth (seg_var g j) (o_xs o) 0 in
+    let wi := nth i (o_pos o) 0 in let wj := nth j (o_pos o) 0 in
+    (o_sep o = rbase R \/ SAT_TOL < o_sep o) /\
+    (* the immovable member is the earlier segment of the processing order: the movable one ends ABOVE it *)
+    (plain_fixed sj -> sfixed si = false ->
+       wj = spos sj /\
+       exists k c, nth_error (o_cs o) k = Some c /\ cl c = seg_var g j /\ cr c = seg_var g i /\ o_sep o <= gap c /\
+         (nth_error (o_flags o) k = Some false ->
+            spos sj + o_sep o <= xi + SAT_TOL + TOL10 /\
+            forall d, 0 <= d -> smin si - d <= xi -> xi <= smax si + d -> spos sj + o_sep o <= wi + SAT_TOL + TOL10 + d)) /\
+    (* the immovable member is the later one: the movable one ends BELOW it *)
+    (plain_fixed si -> sfixed sj = false ->
+       wi = spos si /\
+       exists k c, nth_error (o_cs o) k = Some c /\ cl c = seg_var g j /\ cr c = seg_var g i /\ o_sep o <= gap c /\
+         (nth_error (o_flags o) k = Some false ->
+            xj + o_sep o <= spos si + SAT_TOL + TOL10 /\
+            forall d, 0 <= d -> smin sj - d <= xj -> xj <= smax sj + d -> wj + o_sep o <= spos si + SAT_TOL + TOL10 + d)).
+  Proof.
+    intros H Hsat Hu Hji Hi Hov Hsa Hca Hsh Hbase g si sj xi xj wi wj.
+    assert (Hj : (j < length (rsegs R))%nat) by lia.
+    assert (ABS : forall a b, Qabs' (a - b) <= SAT_TOL -> b - SAT_TOL <= a /\ a <= b + SAT_TOL).
+    { intros a b. unfold Qabs'. qcase; qb2p; lra. }
+    destruct (nudge_satisfied_post _ _ _ H Hsat) as [_ [Hb [_ [_ Hw]]]].
+    split; [exact (proj2 (Hb Hu))|]. split.
+    - intros Hpf Hfi.
+      destruct (plain_fixed_var _ _ _ j H Hsat Hj Hpf) as [Hx Hwj]. fold g sj xj wj in Hx, Hwj.
+      split; [exact Hwj|].
+      destruct (C10_model fuel R o i j H Hsat Hu Hji Hi Hov (or_introl Hfi) Hsa Hca Hsh Hbase)
+        as [k [c [Hc [E1 [E2 [_ [G1 [_ [_ Hpos]]]]]]]]]. fold g in E1, E2, Hpos.
+      exists k, c. repeat (split; [assumption|]).
+      intros Hfl. specialize (Hpos Hfl). fold xi xj in Hpos. apply ABS in Hx.
+      split; [lra|]. intros d Hd Hlo Hhi.
+      assert (Hcl : Qabs' (wi - xi) <= d).
+      { unfold wi. rewrite Hw, written_nth by exact Hi. fold g si xi. apply new_pos_close; assumption. }
+      assert (xi - d <= wi) by (revert Hcl; unfold Qabs'; qcase; qb2p; lra).
+      lra.
+    - intros Hpf Hfj.
+      destruct (plain_fixed_var _ _ _ i H Hsat Hi Hpf) as [Hx Hwi]. fold g si xi wi in Hx, Hwi.
+      split; [exact Hwi|].
+      destruct (C10_model fuel R o i j H Hsat Hu Hji Hi Hov (or_intror Hfj) Hsa Hca Hsh Hbase)
+        as [k [c [Hc [E1 [E2 [_ [G1 [_ [_ Hpos]]]]]]]]]. fold g in E1, E2, Hpos.
+      exists k, c. repeat (split; [assumption|]).
+      intros Hfl. specialize (Hpos Hfl). fold xi xj in Hpos. apply ABS in Hx.
+      split; [lra|]. intros d Hd Hlo Hhi.
+      assert (Hcl : Qabs' (wj - xj) <= d).
+      { unfold wj. rewrite Hw, written_nth by exact Hj. fold g sj xj. apply new_pos_close; assumption. }
+      assert (wj <= xj + d) by (revert Hcl; unfold Qabs'; qcase; qb2p; lra).
+      lra.
+  Qed.
 End Post.
 
 (* nudge_no_new_segments: the write-back of one segment assigns one coordinate of existing points of the route:
@@ -777,12 +870,6 @@ Proof.
 Qed.
 
 (* ================================================================== Part 4: the region checker run on real dumps *)
-
-Lemma indexed_nth_error {A} (l : list A) i s : nth_error l i = Some s -> nth_error (indexed l) i = Some (i, s).
-Proof.
-  intros H. pose proof (nth_error_some_lt _ _ _ H) as Hlt. unfold indexed.
-  rewrite (indexed_nth s l 0 i Hlt). cbn. rewrite (nth_error_nth _ _ s H). reflexivity.
-Qed.
 
 Record region_post (tol : Q) (R : region) (g : gst) (sep : Q) (cs : list con) (xs pos : list Q) : Prop := {
   rp_cons : forall c, In c cs ->
@@ -869,6 +956,20 @@ Definition ex_solver_n (k : nat) (vs : list nvar) (cs : list con) (fl : list boo
   ([4; 4; 6; 6; 4; 6], fl).
 Example ex_unsatisfied_noop :
   exists o, nudge_region ex_solver_n 20 ex_Rn = NOk o /\ o_sat o = false /\ o_pos o = [5; 5] /\ o_solves o = 10%nat.
+Proof. eexists. split; [vm_compute; reflexivity|]. vm_compute. repeat split; reflexivity. Qed.
+
+(* ---- an immovable member (the first nudging region of the demo of seeded change C10-6): the first segment x = 100,
+   y in [0,150] of a connector with a fixed route, and the Z-bend middle segment of another connector centred onto it
+   (limits [40,160]).  The hypotheses of nudge_immovable_member_post hold for (i, j) = (1, 0): the fixed segment keeps
+   x = 100, the movable one ends 4 above it. *)
+Definition ex_fixseg : seg := mkseg 30 100 true false false false false false 100 100 0 150 false false [].
+Definition ex_zseg : seg := mkseg 10 100 false false false false false true 40 160 20 80 false true [].
+Definition ex_Rfx : region := mkregion false 4 false true [ex_fixseg; ex_zseg] [[]; [ex_rel]].
+Example ex_immovable_member :
+  exists o, nudge_region (fun _ _ _ fl => ([100; 104; 40; 160], fl)) 5 ex_Rfx = NOk o /\ o_sat o = true /\
+            o_pos o = [100; 104] /\ o_sep o = 4 /\ o_flags o = [false; false; false] /\
+            plain_fixed (seg_of ex_Rfx 0) /\ sfixed (seg_of ex_Rfx 1) = false /\
+            r_ov (rel_of ex_Rfx 1 0) = true /\ r_sa (rel_of ex_Rfx 1 0) = false /\ r_ca (rel_of ex_Rfx 1 0) = false.
 Proof. eexists. split; [vm_compute; reflexivity|]. vm_compute. repeat split; reflexivity. Qed.
 
 (* ---- the two assertion mechanisms found in the unsatisfied-range bookkeeping, as computed witnesses of the model.
